@@ -42,6 +42,13 @@ Fixpoint sx_mseteq (a b : list sx) : bool :=
   | x :: a' => match sx_remove1 x b with Some b' => sx_mseteq a' b' | None => false end
   end.
 
+Fixpoint forall2b {T} (f : T -> T -> bool) (a b : list T) : bool :=
+  match a, b with
+  | [], [] => true
+  | x :: a', y :: b' => f x y && forall2b f a' b'
+  | _, _ => false
+  end.
+
 (* encoders *)
 Definition sx_of_str (s : str) : sx := L (map A s).
 Definition sx_of_bool (b : bool) : sx := A (if b then 1 else 0).
